@@ -162,6 +162,58 @@ def scalar_battery(ctx):
         ctx.corr_fail('scalar model does not raise on a valueless operand', {'expr': ex[i]})
 
 
+def componentless_battery(ctx):
+    """SEQUENCE / SET objects created without declared components hand out the names field-0, field-1, .. for the
+    positions they hold.  Name-addressed operations are a dict over exactly those names: any other spelling (leading
+    zeros, signs, blanks, other digits, other case, a number past the end) is unknown - `in` says no, reads and writes
+    refuse, and nothing changes."""
+    from pyasn1.codec.der import encoder as _der
+    from pyasn1 import error as _error
+    aliases = lambda n: ['field-0%d' % n, 'field-+%d' % n, 'field- %d' % n, 'field-%d ' % n, ' field-%d' % n, 'field-%d.0' % n,
+                         'Field-%d' % n, 'field_%d' % n, 'field-%s' % ''.join(chr(0x660 + int(c)) for c in str(n)), 'field--%d' % n, 'field-%d_0' % n]
+    for cls in (univ.Sequence, univ.Set):
+        for count in (1, 2, 3, 11):
+            o = cls()
+            for i in range(count):
+                o.setComponentByPosition(i, univ.Integer(10 + i))
+            before = bytes(_der.encode(o))
+            names = [o.componentType.getNameByPosition(i) if o.componentType else 'field-%d' % i for i in range(count)]
+            ctx.stats['component-less records'] += 1
+            for i, nm in enumerate(names):
+                ctx.case(('componentless', cls.__name__, count, nm), True)
+                try:
+                    ok = (nm in o) and int(o[nm]) == 10 + i and int(o.getComponentByName(nm)) == 10 + i
+                except Exception as e:
+                    ok = False
+                if not ok:
+                    ctx.prop_fail('%s without declared components: the name it handed out does not address its member' % cls.__name__, {'name': nm, 'members': count})
+            for n in list(range(count)) + [count, count + 5]:
+                for nm in aliases(n) + (['field-%d' % n] if n >= count else []):
+                    ctx.case(('componentless', cls.__name__, count, nm), True)
+                    ctx.stats['component-less name probes'] += 1
+                    got = []
+                    try:
+                        if nm in o: got.append('in')
+                    except _error.PyAsn1Error: pass
+                    except KeyError: pass
+                    for what, f in (('getitem', lambda: o[nm]), ('getComponentByName', lambda: o.getComponentByName(nm)),
+                                    ('getComponentByName(instantiate=False)', lambda: o.getComponentByName(nm, instantiate=False)),
+                                    ('setitem', lambda: o.__setitem__(nm, univ.Integer(99))), ('setComponentByName', lambda: o.setComponentByName(nm, univ.Integer(98)))):
+                        try:
+                            f(); got.append(what)
+                        except (_error.PyAsn1Error, KeyError, IndexError):
+                            pass
+                        except Exception as e:
+                            got.append('%s raised %s' % (what, type(e).__name__))
+                    after = bytes(_der.encode(o))
+                    if got or after != before:
+                        ctx.prop_fail('%s without declared components: a name it never handed out is accepted' % cls.__name__,
+                                      {'name': nm, 'members': count, 'accepted_by': got, 'der_before': before.hex(), 'der_after': after.hex()})
+                        o = cls()
+                        for i in range(count):
+                            o.setComponentByPosition(i, univ.Integer(10 + i))
+
+
 def run(ctx):
     kinds = C.standard_kinds()
     quick = ctx.tier != 'thorough'
@@ -223,6 +275,7 @@ def run(ctx):
         ctx.corr_fail('%s: the Python prototype and Spec/ListSpec.v disagree on a well-formed step' % kind.name,
                       {'kind': kind.name, 'history': [op_json(o) for o in ops], 'prototype_trace': [op_json(e) for e in ptrace]})
     scalar_battery(ctx)
+    componentless_battery(ctx)
 
 
 def replay(data):
